@@ -41,12 +41,12 @@ func (ch *chooser) Advance() bool {
 
 // Opts configures one scheduled execution.
 type Opts struct {
-	MaxSteps       int  // step horizon (default 20000)
-	MaxAdvances    int  // virtual-time jumps allowed (default 64)
-	NoAdvanceAlt   bool // time passes only when nothing is runnable
-	SelectRotation bool // which ready select case wins is a (deviation-costed) choice
-	AllowCut       bool // reaching the horizon is not an error
-	FixedSchedule  bool // threads always run in the default order (cluster simulation: branching only at harness choices)
+	MaxSteps       int           // step horizon (default 20000)
+	MaxAdvances    int           // virtual-time jumps allowed (default 64)
+	NoAdvanceAlt   bool          // time passes only when nothing is runnable
+	SelectRotation bool          // which ready select case wins is a (deviation-costed) choice
+	AllowCut       bool          // reaching the horizon is not an error
+	FixedSchedule  bool          // threads always run in the default order (cluster simulation: branching only at harness choices)
 	SigPrefix      func() string // classifies deadlock / horizon failures (evaluated when one is raised)
 }
 
